@@ -1026,3 +1026,41 @@ def m_vec_more(I, fr, callee, m, args):
     if op == 'into_boxed_slice':
         return v
     return NotImplemented
+
+
+@model(r'^(?:std::iter::|core::iter::)?(once|empty|repeat)::<.*>$')
+def m_iter_once(I, fr, callee, m, args):
+    if m.group(1) == 'once':
+        return IterV('list', items=(args[0],), i=0)
+    if m.group(1) == 'empty':
+        return IterV('list', items=(), i=0)
+    raise Unsupported("iter::repeat")
+
+
+@model(r'^Box::<\[.*; \d+\]>::new_uninit$')
+def m_box_new_uninit(I, fr, callee, m, args):
+    # lowering of vec![..]: the array is written through the raw pointer, then turned into a Vec
+    return Agg('BoxUninit', (Agg('Unique', (Ref(Cell(None, 'boxuninit')),)),))
+
+
+@model(r'^std::boxed::box_assume_init_into_vec_unsafe::<.*>$|^alloc::boxed::box_assume_init_into_vec_unsafe::<.*>$')
+def m_box_into_vec(I, fr, callee, m, args):
+    cell = args[0].f[0].f[0].cell
+    v = cell.v
+    while isinstance(v, Agg) and v.ty != 'array':
+        v = [x for x in v.f if x is not None][0]
+    return VecV(v.f)
+
+
+@model(r'^<(HashSet|HashMap|BTreeMap|BTreeSet)<.*> as Extend<.*>>::extend::<.*>$')
+def m_map_extend(I, fr, callee, m, args):
+    ref = args[0]
+    mv = I.load_ref(ref)
+    is_set = m.group(1).endswith('Set')
+    for x in iter_collect(I, to_iter(I, args[1])):
+        if is_set:
+            mv, _ = map_insert(I, mv, x, UNIT)
+        else:
+            mv, _ = map_insert(I, mv, x.f[0], x.f[1])
+    I.store_ref(ref, mv)
+    return UNIT
